@@ -99,6 +99,47 @@ Theorem C14_abf_script_restart_before_repair_refuted :
 Proof. exact script_restart_refuted. Qed.
 Print Assumptions C14_abf_script_restart_before_repair_refuted.
 
+(* A round that does not complete: a peer is dead, absent or too slow and a blocking call inside replica_share() fails,
+   at any point of the round.  replica_share() is a transaction: every walker either completes the round or is exactly
+   as before the call (which walkers do depends on where the failure happens; the statement holds for EVERY assignment
+   of outcomes), and in both cases what the walker has sampled itself -- local + (global - snapshot) -- is untouched. *)
+Theorem C14_abf_exchange_transaction : forall (A : Type) (G : GrpOps A), GrpLaws G ->
+  forall t oc (ws : list (walker (A:=A))) k w w',
+  nth_error ws k = Some w -> nth_error (exchange_partial G t oc ws) k = Some w' ->
+  (w' = w \/ nth_error (exchange G t ws) k = Some w') /\ forall i, own_data G w' i = own_data G w i.
+Proof. exact @exchange_transaction. Qed.
+Print Assumptions C14_abf_exchange_transaction.
+
+(* a round in which every walker gives up leaves every grid of every walker as it was *)
+Theorem C14_abf_exchange_all_aborted : forall (A : Type) (G : GrpOps A) t (ws : list (walker (A:=A))),
+  exchange_partial G t (repeat Aborted (length ws)) ws = ws.
+Proof. exact @exchange_all_aborted. Qed.
+Print Assumptions C14_abf_exchange_all_aborted.
+
+(* replica_share() as it was: replica 0 returned from a failed receive with the deltas of the lower ranks added to its
+   global grid, its own delta added to the local grid and a delta in the snapshot grid (root_fail_old). *)
+Theorem C14_abf_peer_death_before_repair_refuted :
+  exists r w, nth_error (run Zgrp false peer_death_witness (init Zgrp 3)) 0 = Some w /\
+    root_fail_old Zgrp 1 (run Zgrp false peer_death_witness (init Zgrp 3)) = Some r /\
+    own_data Zgrp w 0 = 2 /\ own_data Zgrp r 0 <> 2.
+Proof. exact peer_death_old_refuted. Qed.
+Print Assumptions C14_abf_peer_death_before_repair_refuted.
+
+(* Walkers that all read the same data I through inputPrefix (w_init_input: recorded as exchanged already) and exchange:
+   everybody holds I, once, however many walkers there are ... *)
+Theorem C14_abf_input_once : forall (A : Type) (G : GrpOps A), GrpLaws G ->
+  forall (I : grid (A:=A)) t t' (n : nat) k w,
+  nth_error (exchange G t' (repeat (w_init_input G I t) n)) k = Some w -> forall j, wG w j = I j /\ wL w j = I j.
+Proof. exact @input_once. Qed.
+Print Assumptions C14_abf_input_once.
+
+(* ... which failed when sharing was enabled by a script (snapshot empty: w_init_input_old): two walkers, one input
+   sample: 2 after the exchange. *)
+Theorem C14_abf_input_before_repair_refuted :
+  exists w, nth_error (exchange Zgrp 1 (repeat (w_init_input_old Zgrp (one_at 0) 0) 2)) 0 = Some w /\ wG w 0 = 2.
+Proof. exact input_old_refuted. Qed.
+Print Assumptions C14_abf_input_before_repair_refuted.
+
 (* A restart through a state file of the repaired code (last_* saved) is the identity on the three grids, at any
    point of a run -- which is why C14_abf_union_once and C14_abf_interleavings_union_once quantify over traces with
    ERestart / ARestart ANYWHERE, not only at exchange boundaries. *)
@@ -143,6 +184,15 @@ Theorem C14_opes_same_list : forall (K : Type) (rounds : list (list K)) (n k : n
   nth_error (opes_run rounds n) k = Some l -> l = concat rounds.
 Proof. exact @opes_same_list. Qed.
 Print Assumptions C14_opes_same_list.
+
+(* Exactly once, by position: when every round has one kernel per walker (n of them, in rank order), the list that any
+   walker holds has rounds*n entries, and entry r*n+p is the kernel walker p contributed in round r. *)
+Theorem C14_opes_every_kernel_once : forall (K : Type) (rounds : list (list K)) (n k : nat) (l : list K),
+  Forall (fun c => length c = n) rounds -> nth_error (opes_run rounds n) k = Some l ->
+  length l = (length rounds * n)%nat /\
+  forall r p c, nth_error rounds r = Some c -> (p < n)%nat -> nth_error l (r * n + p) = nth_error c p.
+Proof. exact @opes_every_kernel_once. Qed.
+Print Assumptions C14_opes_every_kernel_once.
 
 (* ... and the sums of weights that normalise the bias (sum of weights, sum of squared weights; neff, rct and the
    kernel normalisation are functions of them and of the common counter): the running sum that every walker holds
